@@ -104,6 +104,15 @@ def GateState.newClient (destConnID : CID) (version : Nat) (supported : List Nat
     versionNegotiated := hasNegotiatedVersion,
     handshakeDestConnID := destConnID, origDestConnID := destConnID, destConnID := destConnID }
 
+/-- the `hasNegotiatedVersion` argument `doDial` passes when it dials again after a Version Negotiation packet
+(`spec`: UTransport.doDial, else Transport.doDial) — regenerated from the call's source text -/
+def recreateMarksNegotiated (spec : Bool) : Bool :=
+  if spec then Uquic.Gen.Gate.recreateArgUTransport else Uquic.Gen.Gate.recreateArgTransport
+
+/-- the client connection `doDial` creates after `errCloseForRecreating` -/
+def GateState.recreated (spec : Bool) (destConnID : CID) (version : Nat) (supported : List Nat) : GateState :=
+  GateState.newClient destConnID version supported (recreateMarksNegotiated spec)
+
 /-- `protocol.ChooseSupportedVersion(ours, theirs)` -/
 def chooseSupportedVersion (ours theirs : List Nat) : Option Nat :=
   ours.find? (fun v => theirs.contains v)
